@@ -260,7 +260,8 @@ class ODataLexer(Lexer):
         t.value = ast.Or()
         return t
 
-    @_(rf"not{_RWS}")
+    # `a/not` is a path segment, not the start of a negation:
+    @_(rf"(?<!/)not{_RWS}")
     def NOT(self, t):
         ":meta private:"
         t.value = ast.Not()
